@@ -1149,7 +1149,15 @@ func (c *Ctx) sameStringValue(a, b ssa.Value) bool {
 	}
 	fa, ok1 := la.X.(*ssa.FieldAddr)
 	fb, ok2 := lb.X.(*ssa.FieldAddr)
-	if !ok1 || !ok2 || fa.Field != fb.Field || !c.An.sameCanon(fa.X, fb.X) {
+	sameBase := func(x, y ssa.Value) bool {
+		if c.An.sameCanon(x, y) {
+			return true
+		}
+		ux, ok1 := x.(*ssa.UnOp)
+		uy, ok2 := y.(*ssa.UnOp)
+		return ok1 && ok2 && ux.Op == token.MUL && uy.Op == token.MUL && ux.X == uy.X // two loads of one captured variable
+	}
+	if !ok1 || !ok2 || fa.Field != fb.Field || !sameBase(fa.X, fb.X) {
 		return false
 	}
 	// the last store to the field that dominates each load must be the same one
@@ -1161,7 +1169,7 @@ func (c *Ctx) sameStringValue(a, b ssa.Value) bool {
 				return
 			}
 			sfa, ok := s.Addr.(*ssa.FieldAddr)
-			if !ok || sfa.Field != fa.Field || !c.An.sameCanon(sfa.X, fa.X) || !instrDominates(s, ld) {
+			if !ok || sfa.Field != fa.Field || !sameBase(sfa.X, fa.X) || !instrDominates(s, ld) {
 				return
 			}
 			if best == nil || instrDominates(best, s) {
@@ -1489,16 +1497,55 @@ func ruleNoSharedConnections(c *Ctx, rule string) {
 		if !isContainer(derefType(g.Type())) {
 			continue
 		}
-		// used by a function of the backend (other than the package initialiser's own assignment)?
+		// used by a function of the backend (other than the package initialiser's own assignment)? A map or slice counts
+		// only when such a function changes it (a table that is only read hands out nothing that was put in at run
+		// time); a sync.Map, a pool or a channel counts with any use.
 		used := false
+		_, isMap := derefType(g.Type()).Underlying().(*types.Map)
+		_, isSlice := derefType(g.Type()).Underlying().(*types.Slice)
+		readOnlyKind := isMap || isSlice
 		for _, fn := range c.fsBackendFuncs() {
 			if fn.Name() == "init" && fn.Parent() == nil {
 				continue
 			}
 			instrsOf(fn, func(in ssa.Instruction) {
 				for _, op := range in.Operands(nil) {
-					if *op == ssa.Value(g) {
+					if *op != ssa.Value(g) {
+						continue
+					}
+					if !readOnlyKind {
 						used = true
+						continue
+					}
+					switch x := in.(type) {
+					case *ssa.Store:
+						if x.Addr == ssa.Value(g) {
+							used = true // the variable itself is reassigned at run time
+						}
+					case *ssa.UnOp:
+						// the loaded map / slice: is it updated?
+						if x.Referrers() != nil {
+							for _, r := range *x.Referrers() {
+								switch y := r.(type) {
+								case *ssa.MapUpdate:
+									if y.Map == ssa.Value(x) {
+										used = true
+									}
+								case *ssa.IndexAddr:
+									if y.Referrers() != nil {
+										for _, r2 := range *y.Referrers() {
+											if s, ok := r2.(*ssa.Store); ok && s.Addr == ssa.Value(y) {
+												used = true
+											}
+										}
+									}
+								case *ssa.Call:
+									if b, ok := y.Call.Value.(*ssa.Builtin); ok && (b.Name() == "delete" || b.Name() == "clear" || b.Name() == "append") {
+										used = true
+									}
+								}
+							}
+						}
 					}
 				}
 			})
